@@ -1,6 +1,6 @@
 (* C03 -- labelled outputs name every number correctly (Dataset and DataFrame). *)
 From XV Require Import Prelude Grid Perm Runner Flow Label GenRunner BridgeRunner
-     GridProofs PermProofs RunnerProofs LabelProofs.
+     LabelFlow GenLabel BridgeLabel GridProofs PermProofs RunnerProofs LabelProofs.
 Open Scope Z_scope.
 
 (* DataFrame: one row per evaluated setting, each row pairing that setting's argument values
@@ -73,14 +73,44 @@ Proof.
   vm_compute. discriminate.
 Qed.
 
+(* the builders as the code has them: the row steps (drop resources, add attrs, add outputs) and the Dataset
+   layout (coordinate order, dims = swept arguments then the variable's own, results zipped with var_names,
+   attrs copied, constants to coordinates / attributes OF THE DATASET) are REGENERATED from results_to_df /
+   results_to_ds; interpreted, they are the model's builders, and a run leaves the caller's attrs mapping as
+   it was -- so a later run through the same Runner is labelled by its own description only *)
+Theorem C03_generated_builders : forall (R : Type) (comps : R -> list R),
+  (forall resources attrs var_names s (r : R),
+     df_row_flow comps gen_label_flow resources attrs var_names s r = df_row comps resources attrs var_names s r)
+  /\ (forall var_names var_dims var_coords constants attrs args coords (o : out R),
+       to_ds_flow gen_label_flow var_names var_dims var_coords constants attrs args coords o
+       = match to_ds var_names var_dims var_coords constants attrs args coords o with
+         | Ok d => Ok (d, attrs) | Err e => Err e end).
+Proof.
+  intros R comps. rewrite bridge_label_flow. split; intros.
+  - apply df_row_flow_model.
+  - apply to_ds_flow_model.
+Qed.
+
+(* sensitivity: were the constants stored through the caller's attrs mapping, a run with a constant would
+   leave it in the mapping for every later run *)
+Lemma C03_constants_into_caller_mapping_refuted :
+  let lf := mk_label_flow true [RDropResources; RUpdateAttrs; RUpdateOutputs] true true [CoCombos; CoVarCoords]
+                          true true true KDimToCoordElseAttr TCallerMapping in
+  match to_ds_flow lf [100] [] [] [(6, 3)] [(300, 1)] [0] [[0; 1]] (ONest (Node [Leaf (Got 5); Leaf (Got 6)])) with
+  | Ok (_, caller) => caller = [(300, 1); (6, 3)]
+  | Err _ => False
+  end.
+Proof. vm_compute. reflexivity. Qed.
+
 Theorem C03_code_tie :
   (forall (R : Type) (f : kwargs -> R) i, interp f i (info_prov i) = DS (settings i))
   /\ (forall (R : Type) (f : kwargs -> R) i, interp f i (results_prov i) = DR (results_linear f i))
   /\ (forall (R : Type) (f : kwargs -> R) i, interp f i (run_prov i) = DS (run_order i))
-  /\ gen_unflatten_is_transcribed = true.
+  /\ gen_unflatten_is_transcribed = true
+  /\ gen_label_flow = model_label_flow.
 Proof.
   split; [intros; apply bridge_info|]. split; [intros; apply bridge_results|].
-  split; [intros; apply bridge_run|exact (proj1 bridge_flags)].
+  split; [intros; apply bridge_run|]. split; [exact (proj1 bridge_flags)|exact bridge_label_flow].
 Qed.
 
 Print Assumptions C03_df_rows.
@@ -88,4 +118,5 @@ Print Assumptions C03_df_no_resources.
 Print Assumptions C03_ds_single_var.
 Print Assumptions C03_ds_multi_var.
 Print Assumptions C03_wrong_var_count.
+Print Assumptions C03_generated_builders.
 Print Assumptions C03_code_tie.
